@@ -129,7 +129,7 @@ def build(ctx):
     rep = None if os.environ.get('C10_NO_REPLAY') else replay_C10.replay
     groups = []
     ta, fa = unit_a(ctx)
-    for n in ([1, 2, 3] if thorough else [1, 2]):
+    for n in ([2, 3] if thorough else [2]):
         groups.append(Group(
             name='setupRun/args<=%d' % n, sources={'c10.cpp': ta}, entry='h_setupRun', lang='cpp',
             defines=['VERIF_MAXARGS=%d' % n], unwind=max(n + 2, 17), object_bits=10, min_obligations=10, functions=fa,
